@@ -599,14 +599,14 @@ def r03_13(run, model):
 INFER_LEDGER = {("infer_block_exprs", "tast_expr"): "statements of a block: only the last one determines the block's type (read through the vector)"}
 
 
-def r03_14(run, model):
+def r03_14(run, model, only=None):
     run.rule("R03.14", "the type of every child inferred in inference mode is consulted: a local bound from `self.infer_expr(..)` has its "
                        "`get_ty()` read at least once (a constraint, a result type, an argument) - a child whose type is never read is "
                        "never related to anything (copy/paste slip: then_tast constrained twice, else_tast never)")
     CHECK = "crates/compiler/src/typer/check.rs"
     n = 0
     for f in model.fns(CHECK):
-        if f.body is None:
+        if f.body is None or (only is not None and f.name not in only):
             continue
         for l in S.find(f.body, "Local"):
             if l["pat"]["k"] != "PIdent" or l.get("init") is None:
@@ -621,7 +621,7 @@ def r03_14(run, model):
             run.ob("R03.14", f"{f.name}|type of `{name}` is consulted", bool(uses) or led is not None, site(CHECK, l["sp"]),
                    f"{len(uses)} reads of {name}.get_ty()" + (f"; ledger: {led}" if led and not uses else ""),
                    witness="let v = if c { 1 } else { \"one\" }; is accepted: Core has EIf{ty:int32, then:int32, else:string}")
-    run.floor("children inferred in inference mode", n, 20)
+    run.floor("children inferred in inference mode", n, 20 if only is None else 2)
 
 
 def r03_15(run, model):
